@@ -206,8 +206,10 @@ impl Kernels {
             st.oracle_failure(json!({"key": key, "what": "skrifa kernel panics where FreeType returns", "op": op,
                                      "args": a, "panic": e, "freetype": f}));
         }
-        // oracle 2: i128 transcription of the unexported FreeType function, wherever skrifa returns and
-        // the FreeType value is representable
+        // oracle 2: i128 transcription of the unexported FreeType function.  skrifa == FreeType is demanded
+        // exactly on the numeric ranges for which coq/C03/Props.v proves it (round_*_eq, muldiv_noround_
+        // wrapfree_range + ftmuldiv_noround_eq); outside them (an i32 intermediate may wrap) a difference is
+        // the divergence the `_refuted` witnesses describe: counted as an observation, not a failure.
         if let Some(Ok(s)) = &sk {
             let z: Vec<i128> = a.iter().map(|v| *v as i128).collect();
             let r = match op {
@@ -216,12 +218,32 @@ impl Kernels {
                 10..=17 => ftref::round((op - 10) as usize, z[0], z[1], z[2], z[3]),
                 _ => None,
             };
+            const MIN: i128 = i32::MIN as i128;
+            const SMALL: i128 = 1 << 28;
+            let in_domain = match op {
+                4 => {
+                    z.iter().all(|v| *v != MIN)
+                        && (z[2] == 0 || (z[0].abs() * z[1].abs()) / z[2].abs() <= i32::MAX as i128)
+                }
+                5 | 15 => true,
+                10..=14 => z[3].abs() <= 2147483520,
+                16 => z.iter().all(|v| v.abs() <= SMALL),
+                17 => z.iter().all(|v| v.abs() <= SMALL) && z[2] != 0,
+                _ => false,
+            };
             if let Some(r) = r {
-                // op 4: `d as i32` truncation is what skrifa documents; compare mod 2^32 there
-                let same = if op == 4 { *s == (r as i32) as i64 } else { *s as i128 == r };
-                if !same {
-                    st.oracle_failure(json!({"key": key, "what": "skrifa kernel != FreeType semantics (i128 transcription, LP64)",
-                                             "op": op, "args": a, "skrifa": s, "freetype_ref": r.to_string()}));
+                st.count(&format!("kernel.op{:02}.{}", op, if in_domain { "in_proved_range" } else { "outside_proved_range" }));
+                if *s as i128 != r {
+                    if in_domain {
+                        st.oracle_failure(json!({"key": key, "what": "skrifa kernel != FreeType semantics (i128 transcription, LP64) inside the range where equality is proved",
+                                                 "op": op, "args": a, "skrifa": s, "freetype_ref": r.to_string()}));
+                    } else {
+                        // differs from FreeType's 64-bit value; "mod32": differs even in the low 32 bits
+                        st.count(&format!("kernel.op{:02}.divergence_outside_proved_range", op));
+                        if *s != (r as i32) as i64 {
+                            st.count(&format!("kernel.op{:02}.divergence_mod32_outside_proved_range", op));
+                        }
+                    }
                 }
             }
         }
@@ -417,16 +439,34 @@ fn witnesses(st: &mut Stats) {
     };
     both("ftdivfix_refuted", 2, &[0x7FFF_FFFF, 1], -65536, 0x7FFF_FFFF_0000, st);
     both("ftmuldiv_refuted", 3, &[0x7FFF_FFFF, 0x7FFF_FFFF, 1], 1, 0x3FFF_FFFF_0000_0001, st);
-    // strict-profile outcomes of the wrapping-reading witnesses (the harness is built with overflow checks)
-    let mut only = |name: &str, op: i64, a: &[i64]| {
+    // divergence witnesses at the i32 limits (coq/C03/Examples.v `*_refuted`): the real skrifa kernel (which
+    // wraps since /repo fb7fa4b) must return the value the Coq model predicts; the FreeType side of these
+    // kernels is not exported, so FreeType's value comes from the i128 transcription (= the Coq FreeType model)
+    let mut wrapw = |name: &str, op: i64, a: &[i64], exp_sk: i64, exp_ft: i128, st: &mut Stats| {
         let sk = run_sk(op, a).unwrap();
-        w.insert(name.into(), json!({"op": op, "args": a, "skrifa_overflow_checks_profile": format!("{:?}", sk)}));
+        let z: Vec<i128> = a.iter().map(|v| *v as i128).collect();
+        let ft = if op == 4 { Some(ftref::mul_div_no_round(z[0], z[1], z[2])) } else { ftref::round((op - 10) as usize, z[0], z[1], z[2], z[3]) };
+        let confirmed = sk == Ok(exp_sk) && ft == Some(exp_ft) && exp_sk as i128 != exp_ft;
+        w.insert(name.into(), json!({"op": op, "args": a, "skrifa": format!("{:?}", sk), "freetype_semantics": ft.map(|v| v.to_string()),
+                                     "diverges": true, "confirmed_on_real_skrifa": confirmed}));
+        if !confirmed {
+            st.count("witness_not_confirmed");
+        }
     };
-    only("muldiv_noround_wrapping_refuted", 4, &[i32::MIN as i64, 2, 4]);
-    only("round_grid_wrapping_refuted", 10, &[0, 0, 64, i32::MAX as i64]);
-    only("round_half_grid_wrapping_refuted", 11, &[0, 0, 64, i32::MIN as i64]);
-    only("round_super_wrapping_refuted", 16, &[40, 0, 64, i32::MAX as i64]);
-    only("div_instruction_wrapping_refuted", 4, &[i32::MIN as i64, 64, 128]);
+    let (mn, mx) = (i32::MIN as i64, i32::MAX as i64);
+    wrapw("muldiv_noround_refuted", 4, &[mn, 2, 4], 1 << 30, -(1 << 30), st);
+    wrapw("div_instruction_refuted", 4, &[mn, 64, 128], 1 << 30, -(1 << 30), st);
+    wrapw("round_grid_refuted", 10, &[0, 0, 64, mx], 0, 1 << 31, st);
+    wrapw("round_double_grid_refuted", 12, &[0, 0, 64, mx], 0, 1 << 31, st);
+    wrapw("round_up_to_grid_refuted", 14, &[0, 0, 64, mx], 0, 1 << 31, st);
+    wrapw("round_half_grid_refuted", 11, &[0, 0, 64, mn], 0, -2147483680, st);
+    wrapw("round_super_refuted", 16, &[40, 0, 64, mx], 0, 1 << 31, st);
+    wrapw("round_super45_refuted", 17, &[40, 0, 64, mx], 0, 1 << 31, st);
+    for (name, v) in w.iter() {
+        if v.get("confirmed_on_real_code") == Some(&json!(false)) || v.get("confirmed_on_real_skrifa") == Some(&json!(false)) {
+            st.oracle_failure(json!({"key": format!("witness:{name}"), "what": "a `_refuted` witness of coq/C03/Examples.v is not reproduced by the real implementations", "detail": v}));
+        }
+    }
     st.v.insert("witnesses".into(), serde_json::Value::Object(w));
 }
 
